@@ -61,6 +61,8 @@ let () =
       | ["SH"; sg; nonce; price; gas; to_; amount; payload; recid] ->
         let pre = signtx_preimage (mksigner sg) (mktx nonce price gas to_ amount payload "0" "0" "0") in
         Printf.printf "sh %s %s\n" (hex_of_nlist (keccak pre)) (string_of_n (signature_v (mksigner sg) (n_of_string recid)))
+      | ["RP"; h; r; s_; v] ->
+        print_endline ("rp " ^ str_sender (recover_plain oracle (nlist_of_hex h) (n_of_string r) (n_of_string s_) (z_of_string v)))
       | ["DC"; v] ->
         Printf.printf "dc %s %s\n" (b01 (is_protected (n_of_string v))) (string_of_n (derive_chain_id (n_of_string v)))
       | l -> failwith ("bad line: " ^ String.concat " " l)) lines
